@@ -1129,6 +1129,7 @@ func lexInputRule(c *Ctx, rule string) {
 	}
 	in := c.a.PS.InputF
 	n := 0
+	lexInputReached = 0
 	for _, fn := range c.w.ModFuncs {
 		if c.w.pkgPathOf(fn) != pkgParser {
 			continue
@@ -1150,8 +1151,13 @@ func lexInputRule(c *Ctx, rule string) {
 	}
 	if n == 0 {
 		c.r.undecided(rule, "lexer input", "no assignment of the lexer's input found")
+	} else if lexInputReached == 0 {
+		c.r.undecided(rule, "lexer input", "no assignment of the lexer's input is reached from ParseQuery's argument")
 	}
 }
+
+// lexInputReached counts the pass-through chains that end at ParseQuery's parameter (vacuity guard of lexInputRule).
+var lexInputReached int
 
 // passThrough: v is a parameter of fn that every caller fills with its own parameter, up to ParseQuery's argument.
 func passThrough(c *Ctx, v ssa.Value, fn *ssa.Function, depth int) string {
@@ -1166,6 +1172,7 @@ func passThrough(c *Ctx, v ssa.Value, fn *ssa.Function, depth int) string {
 		return "it is computed, not passed through"
 	}
 	if fn == c.a.ParseQuery {
+		lexInputReached++
 		return ""
 	}
 	idx := -1
@@ -1176,7 +1183,9 @@ func passThrough(c *Ctx, v ssa.Value, fn *ssa.Function, depth int) string {
 	}
 	node := c.w.CG.Nodes[fn]
 	if node == nil || len(node.In) == 0 {
-		return "no caller found for " + safeFname(fn)
+		// a function nobody in the program calls (a debugging aid used by tests only, another exported entry point) is
+		// not on ParseQuery's path: what it feeds the lexer says nothing about what ParseQuery parses
+		return ""
 	}
 	for _, e := range node.In {
 		if e.Site == nil || !c.w.inModule(e.Caller.Func) {
